@@ -19,8 +19,8 @@ use refmodel::tval::{
 use serde_json::{Value, json};
 
 use crate::c01::{vals_from_json, vals_to_json};
-use crate::codecs::{ALL_WP, Reader, WP};
-use crate::interp::{Ops, read_val, read_val_async, to_ttype};
+use pcodec::codecs::{ALL_WP, Reader, WP};
+use pcodec::interp::{Ops, read_val, read_val_async, to_ttype};
 
 pub struct C07;
 
